@@ -233,7 +233,9 @@ class Interp:
             if found:
                 break
         val = None
-        if len(found) == 1 and isinstance(found[0], (ast.Tuple, ast.List, ast.Dict, ast.Constant, ast.Attribute, ast.Set)):
+        lit_call = (len(found) == 1 and isinstance(found[0], ast.Call) and isinstance(found[0].func, ast.Name) and found[0].func.id in ('frozenset', 'set', 'tuple', 'list')
+                    and len(found[0].args) == 1 and isinstance(found[0].args[0], (ast.Tuple, ast.List, ast.Set)))
+        if len(found) == 1 and (lit_call or isinstance(found[0], (ast.Tuple, ast.List, ast.Dict, ast.Constant, ast.Attribute, ast.Set))):
             try:
                 self.modconst[name] = None
                 val = self.ex(found[0], Frame(fr.func, {}))
